@@ -459,9 +459,28 @@ func (e *Engine) yamlUnmarshal(fn *ssa.Function, args []Value, st *State) Value 
 		sv := getPath(cell, a.Path).(*StructV)
 		stt := sv.T.Underlying().(*types.Struct)
 		for i := 0; i < stt.NumFields(); i++ {
+			if stt.Field(i).Name() == "Suffixes" && len(env.Suf) > 0 {
+				cell, _ = e.cell(st, a.O)
+				sv = getPath(cell, a.Path).(*StructV)
+				mo := newObj(stt.Field(i).Type())
+				mc := &MapC{}
+				any := FalseT
+				for _, kv := range env.Suf {
+					present := Not(Eq(kv[0], StrC("")))
+					mc.Ents = append(mc.Ents, MEnt{P: present, K: kv[0], V: kv[1]})
+					any = Or(any, present)
+				}
+				st.heap[mo] = mc
+				set := And(a.G, Not(env.YamlErr), any)
+				nv := mergeV(st, set, &MapV{Alts: []MAlt{{G: TrueT, O: mo}}}, sv.F[i])
+				st.heap[a.O] = setPath(cell, append(append([]int(nil), a.Path...), i), nv)
+				continue
+			}
 			if stt.Field(i).Name() != "Types" {
 				continue
 			}
+			cell, _ = e.cell(st, a.O)
+			sv = getPath(cell, a.Path).(*StructV)
 			mo := newObj(stt.Field(i).Type())
 			hasType := Not(Eq(env.Typ, StrC("")))
 			st.heap[mo] = &MapC{Ents: []MEnt{{P: hasType, K: env.Typ, V: zero(stt.Field(i).Type().Underlying().(*types.Map).Elem())}}}
